@@ -434,9 +434,9 @@ def main():
         vio_lines.append(f"VIOLATION property={prop} replay={replay} obligation=[{names}]{suffix}")
 
     wall = time.time() - t_start
+    # The level is the one registered for the property (lib/units/Cxx.py); bounded stand-ins are
+    # listed separately in coverage.bounded_stand_ins and are never counted as proved.
     level = P.get("level", "model_checking")
-    if level == "proof" and not all_P:
-        level = "model_checking"
     trusted = ["Kani 0.68.0 (rustc front end, MIR->goto translation)", "CBMC 6.11.0 + CaDiCaL",
                "Kani's models of alloc/memcpy/std collections"] + P.get("trusted", [])
     if any(u["engine"] == "verus" for u in P["units"]):
@@ -454,6 +454,8 @@ def main():
                     "function obligations) that were reachable and discharged in this run",
             "samples": samples[:12] if samples else [{"note": "no obligation discharged in this run"}],
             "exhaustive": bool(all_P and not undecided),
+            "proved_class_harnesses": sum(1 for e in ev_harness if e.get("class") == "P" and e.get("kind") == "ok"),
+            "bounded_harnesses": sum(1 for e in ev_harness if e.get("class") == "B"),
             "functions_under_contract": sorted(set(fns_under_contract)),
             "harnesses": ev_harness,
             "bounded_stand_ins": bounds,
